@@ -19,6 +19,7 @@ INVARIANTS
   C12_SecondLoss
   C12_LlgrDepreferencedAndRestricted
   C12_StaleUsableMarked
+  C12_ReannouncedAreFresh
   C12_PurgeExactlyWhen
   C12_NoForeignRoutes
   C12_DeferralWithholds
